@@ -1,6 +1,7 @@
 import KM.Model.CertGen
 import KM.Model.GoLite
 import KM.Gen.GoCertGen
+import KM.Model.GoTypes
 /-! # C01 — the level test of `certGenHandler` as TRANSLATED from the current source (go2lean)
 
 The statements of `certGenHandler` between the credential check and the refusal — `sufficientAuthLevel := false`,
@@ -63,16 +64,9 @@ theorem goClause_spec (lvl : Nat) (p : List Char) :
   have b6 := beq_eq_false_iff_ne.mpr h6
   simp only [b1, b2, b3, b4, b5, b6, Bool.false_and, Bool.or_false, Bool.false_eq_true, if_false]
 
-/-- **the translated level test is the statement's rule** -/
-theorem c01_go_sufficient (allowed : List (List Char)) (lvl : Nat) :
-    KM.Gen.GoCertGen.certgenSufficientAuthLevel allowed lvl = specSufficientB allowed lvl := by
-  unfold KM.Gen.GoCertGen.certgenSufficientAuthLevel
-  dsimp -proj -iota only
-  rw [forRange_fold (fun s p => s || goClause lvl p) _ (by
-    intro x s
-    simp only [ite_true_or, goClause, Bool.or_assoc])]
-  rw [foldl_or]
-  simp only [ite_true_or, Bool.false_or]
+/-- one round of the loop adds `goClause`, and the trailing U2F test: together the statement's rule -/
+theorem anyClause_spec (allowed : List (List Char)) (lvl : Nat) :
+    (allowed.any (goClause lvl) || (lvl &&& 8 == 8)) = specSufficientB allowed lvl := by
   have e : allowed.any (goClause lvl) =
       (allowed.contains protoAuthTypePassword.toList || allowed.any (fun f => match factorBit f with
         | some b => hasAll lvl b
@@ -91,6 +85,18 @@ theorem c01_go_sufficient (allowed : List (List Char)) (lvl : Nat) :
   rw [hu]
   cases allowed.contains protoAuthTypePassword.toList <;> cases hasAll lvl authTypeU2F <;>
     cases allowed.any (fun f => match factorBit f with | some b => hasAll lvl b | Option.none => false) <;> rfl
+
+/-- **the translated level test is the statement's rule** -/
+theorem c01_go_sufficient (allowed : List (List Char)) (lvl : Nat) :
+    KM.Gen.GoCertGen.certgenSufficientAuthLevel allowed lvl = specSufficientB allowed lvl := by
+  unfold KM.Gen.GoCertGen.certgenSufficientAuthLevel
+  dsimp -proj -iota only
+  rw [forRange_fold (fun s p => s || goClause lvl p) _ (by
+    intro x s
+    simp only [ite_true_or, goClause, Bool.or_assoc])]
+  rw [foldl_or]
+  simp only [ite_true_or, Bool.false_or]
+  exact anyClause_spec allowed lvl
 
 /-- **password-only refused, on the translated source**: with no `password` entry in the operator's list a
 session that proved nothing but the password (level = the password bit) fails the translated test -/
@@ -119,5 +125,75 @@ example : KM.Gen.GoCertGen.certgenSufficientAuthLevel ["TOTP".toList] (2 ||| 64)
     KM.Gen.GoCertGen.certgenSufficientAuthLevel ["TOTP".toList] 2 = false ∧
     KM.Gen.GoCertGen.certgenSufficientAuthLevel [] (2 ||| 8) = true ∧
     KM.Gen.GoCertGen.certgenSufficientAuthLevel ["password".toList] 2 = true := by decide
+
+/-! ### the gates of `certGenHandler`, in program order (block of the handler up to the method test) -/
+
+open KM.GoTypes in
+/-- **the gates of the certificate endpoint, on the translated source**: a sealed server answers 500; then the
+credential check decides (a refusal is written by `checkAuth` itself); then the level test of the statement — 401;
+then the URL user must be the authenticated user — 403; then the method must be POST — 405; only a request that passed
+all of them reaches the code that parses the form and signs.  For every behaviour of `checkAuth`, every operator list,
+level, URL user and method. -/
+theorem c01_go_gates (ext : CertgenExt) (sealed : Bool) (allowed : List (List Char)) (urlUser method : List Char) :
+    (KM.Gen.GoCertGen.certgenGates ext sealed allowed urlUser method).2 =
+      if sealed = true then [HttpEffect.fail 500]
+      else match ext.checkAuth 65535 with
+        | (_, some _) => []
+        | (info, none) =>
+          if specSufficientB allowed info.AuthType = false then [HttpEffect.fail 401]
+          else if info.Username ≠ urlUser then [HttpEffect.fail 403]
+          else if method ≠ "POST".toList then [HttpEffect.fail 405]
+          else [HttpEffect.reached] := by
+  obtain ⟨checkAuth⟩ := ext
+  unfold KM.Gen.GoCertGen.certgenGates
+  dsimp -iota only
+  cases sealed with
+  | true => rfl
+  | false =>
+    rcases hca : checkAuth 65535 with ⟨info, _ | e⟩
+    · dsimp only
+      rw [forRange_fold (fun s p => s || goClause info.AuthType p) _ (by
+        intro x s
+        simp only [ite_true_or, goClause, Bool.or_assoc])]
+      rw [foldl_or]
+      simp only [ite_true_or, Bool.false_or, anyClause_spec]
+      cases specSufficientB allowed info.AuthType with
+      | false => simp
+      | true =>
+        have hP : "POST".toList = ['P', 'O', 'S', 'T'] := by decide
+        rw [hP]
+        by_cases hu : info.Username = urlUser
+        · by_cases hm : method = ['P', 'O', 'S', 'T']
+          · simp [hu, hm]
+          · simp [hu, hm]
+        · simp [hu]
+    · simp
+
+open KM.GoTypes in
+/-- the code that signs is reached only by an unsealed server, an admitted credential whose level meets the
+statement's rule, for the authenticated user, with POST -/
+theorem c01_go_reached (ext : CertgenExt) (sealed : Bool) (allowed : List (List Char)) (urlUser method : List Char)
+    (h : HttpEffect.reached ∈ (KM.Gen.GoCertGen.certgenGates ext sealed allowed urlUser method).2) :
+    sealed = false ∧ (ext.checkAuth 65535).2 = none ∧
+    specSufficientB allowed (ext.checkAuth 65535).1.AuthType = true ∧
+    (ext.checkAuth 65535).1.Username = urlUser ∧ method = "POST".toList := by
+  rw [c01_go_gates] at h
+  have hP : "POST".toList = ['P', 'O', 'S', 'T'] := by decide
+  rw [hP] at h ⊢
+  cases sealed with
+  | true => simp at h
+  | false =>
+    rcases hca : ext.checkAuth 65535 with ⟨info, _ | e⟩
+    · rw [hca] at h
+      dsimp only at h
+      cases hs : specSufficientB allowed info.AuthType with
+      | false => simp [hs] at h
+      | true =>
+        by_cases hu : info.Username = urlUser
+        · by_cases hm : method = ['P', 'O', 'S', 'T']
+          · exact ⟨rfl, rfl, rfl, hu, hm⟩
+          · simp [hs, hu, hm] at h
+        · simp [hs, hu] at h
+    · rw [hca] at h; simp at h
 
 end KM.CertGen
